@@ -68,6 +68,8 @@ for b in "${BUILDS[@]}"; do
   grep "^VIOLATION" "$pieces/$name.out"
   grep "^KNOWN-FINDING" "$pieces/$name.out" >/dev/null
   [ $r -gt $rc ] && rc=$r
+  # a violation is a violation: the remaining builds would only repeat the (slow) minimisation for the same defect
+  if grep -q "^VIOLATION" "$pieces/$name.out"; then echo "(violation found in build $name: remaining builds skipped)"; break; fi
 done
 python3 "$VERIF/scripts/c14_merge.py" "$tier" "$SEED" "$t0" "$pieces" "$OUT" || rc=2
 rm -rf "$pieces"
